@@ -36,6 +36,10 @@ class LogAgent(Agent):
 
     def act(self, time, round_no, step_no):
         self.model.clog.append(("act", self.id, float(time)))
+        sc = self.model.script
+        if sc and sc["where"] == "act" and tuple(sc["when"]) == (round_no, step_no) and self.model.agents and \
+                self.id == sc["actor"]:
+            self.model.delete_agent(sc["victim"])
 
 
 class LogModel(Model):
@@ -87,9 +91,13 @@ def expected(start, stop, dt, pop, collect, script, steps_only=None):
                 nxt += 1
             elif live:
                 live.pop(0)
-        for i in live:
+        for i in list(live):
             log.append(("handle", i, t))
             log.append(("act", i, t))
+        if script and script["where"] == "act" and tuple(script["when"]) == (r, s) and script["actor"] in live:
+            # the actor deletes itself or an agent created before it: every agent alive at the start of the step still acts once
+            if script["victim"] in live:
+                live.remove(script["victim"])
         log.append(("end", t, r, s))
         if script and script["where"] == "end" and tuple(script["when"]) == (r, s):
             if script["op"] == "create":
@@ -249,6 +257,20 @@ def cases(tier):
                             out.append(("run-specs", start, stop, dt, pop, True, sc))
                             if tier == "thorough":
                                 out.append(("hybrid", start, stop, dt, pop, True, sc))
+    # an agent deletes itself or an earlier agent from inside its act()
+    for dt in (1, 0.5):
+        spr = round(1 / dt)
+        for when in sorted(set([(0, 0), (0, spr - 1), (1, 0)])):
+            for pop in (["a", "b", "a"], ["a", "a", "b", "b"]):
+                for actor in range(len(pop)):
+                    for victim in sorted(set([actor, 0])):
+                        sc = {"when": list(when), "where": "act", "op": "delete", "actor": actor, "victim": victim}
+                        out.append(("run-specs", 0, 2, dt, pop, True, sc))
+                        out.append(("steps", 0, 2, dt, pop, True, sc))
+    # every dt = 1/n
+    for n in range(1, 129 if tier == "quick" else 257):
+        out.append(("run-specs", 0, 1, 1.0 / n, ["a"], True, None))
+        out.append(("run-ctor", 1, 1, 1.0 / n, ["a", "b"], False, None))
     return out
 
 
@@ -272,9 +294,10 @@ def run(ctx):
         "samples": [list(c) for c in cs[:3]] + [list(cs[len(cs) // 2])],
         "rule": "complete lattice start in 0..2 x stop-start in 0..2 x dt in 1,.5,.25,.2,.125,.1 x 5 populations x collect_data x drivers "
                 "(Model.run with constructor / run_specs run specs, Model.run_step sequences, hybrid run through bptk.run_scenarios), plus "
-                "callback scripts creating/deleting an agent at the first/last step of the first/last round; states = runs, "
+                "callback scripts creating/deleting an agent at the first/last step of the first/last round, agents deleting themselves or an "
+                "earlier agent from inside act(), and a sweep over every dt = 1/n (n <= 128, thorough 256); states = runs, "
                 "transitions = expected callback invocations compared",
-    }, assumptions=["agents are created or deleted only from begin_round/end_round callbacks (not from inside another agent's act)"])
+    }, assumptions=["agents are created from begin_round/end_round callbacks; deleted from those callbacks, or from act() when the victim is the acting agent itself or one created before it (deleting a later agent in mid-step is not defined by the statement)"])
 
 
 def replay(case):
